@@ -193,7 +193,7 @@ def main(tier, seed):
     mx.want_names = False
     log(f"{len(normal)} cells in {len(progs)} modules; configs {cfgs}")
 
-    with ThreadPoolExecutor(max_workers=4) as ex:
+    with ThreadPoolExecutor(max_workers=nc.parallelism()) as ex:
         refs = dict(zip([p.tag for p in progs], ex.map(mx.regular, progs)))
     for p in progs:
         if not refs[p.tag].ok:
